@@ -255,6 +255,10 @@ def t_div(task):
     return acc
 
 
+def L_neg(t):
+    return t if not t[1] else (1 - t[0], t[1], t[2], t[3])
+
+
 def t_ctx(task):
     _, p = task
     from mpmath import mp, mpf, mpc
@@ -304,6 +308,44 @@ def t_ctx(task):
                     if g._mpc_ != want:
                         acc.violation(['ctx', op, zr, repr(x), p], '%s for z=%s x=%r at prec %d = %s want %s' % (op, zr, x, p, g._mpc_, want), kind='ctx-real', op=op,
                                       part='imag-unrounded' if (g._mpc_[0] == want[0] and g._mpc_[1] == zr[1]) else 'other')
+            # fadd/fsub/fmul with one real and one complex operand, every rounding mode and a precision keyword
+            for x, xq in ((mpf(3) / 4, Fraction(3, 4)), (1, Fraction(1)), (mp.make_mpf(mk(1, (1 << 40) + 1, -45)), -Fraction((1 << 40) + 1, 1 << 45))):
+                a, b = q(zr[0]), q(zr[1])
+                for op, ff, exl, exr in (('add', mp.fadd, (a + xq, b), (a + xq, b)), ('sub', mp.fsub, (a - xq, b), (xq - a, -b)), ('mul', mp.fmul, (a * xq, b * xq), (a * xq, b * xq))):
+                    for side, args, ex in (('z,x', (z, x), exl), ('x,z', (x, z), exr)):
+                        for r in RND:
+                            for kw, pp in (({'rounding': r}, p), ({'rounding': r, 'prec': 7}, 7)):
+                                g = ff(*args, **kw)
+                                acc.evals += 1; acc.nontrivial += 1
+                                gm = g._mpc_ if hasattr(g, '_mpc_') else (g._mpf_, fzero)
+                                want = (rq(ex[0], pp, r), rq(ex[1], pp, r))
+                                if gm != want:
+                                    imag_only = gm[0] == want[0] and op != 'mul' and gm[1] in (zr[1], L_neg(zr[1]))
+                                    acc.violation(['ctx', 'f' + op + '-mixed', side, zr, repr(x), pp, r], 'f%s(%s) with z=%s x=%r prec %d rounding %r = %s want %s' % (op, side, zr, x, pp, r, gm, want), kind='fop-mixed', op=op,
+                                                  part='imag-unrounded' if imag_only else 'other')
+            # Python complex operands are converted exactly, whatever the working precision
+            for wc in (complex(0.1, -0.3), complex(99768.58400001978, 181.9823837680456), complex(1 + 2 ** -40, 2 ** -30 + 2 ** -70)):
+                wq = (Fraction(wc.real), Fraction(wc.imag))
+                a, b = q(zr[0]), q(zr[1])
+                for op, f, ex in (('z+w', lambda: z + wc, (a + wq[0], b + wq[1])), ('w+z', lambda: wc + z, (a + wq[0], b + wq[1])), ('z-w', lambda: z - wc, (a - wq[0], b - wq[1])),
+                                  ('w-z', lambda: wc - z, (wq[0] - a, wq[1] - b)), ('z*w', lambda: z * wc, (a * wq[0] - b * wq[1], a * wq[1] + b * wq[0])),
+                                  ('w*z', lambda: wc * z, (a * wq[0] - b * wq[1], a * wq[1] + b * wq[0]))):
+                    g = f()
+                    acc.evals += 1; acc.nontrivial += 1
+                    want = (rq(ex[0], p, 'n'), rq(ex[1], p, 'n'))
+                    if g._mpc_ != want:
+                        acc.violation(['ctx', op, zr, repr(wc), p], '%s for z=%s w=%r at prec %d = %s want %s' % (op, zr, wc, p, g._mpc_, want), kind='ctx-pycomplex', op=op)
+                acc.evals += 2; acc.nontrivial += 2
+                eqx = (a, b) == wq
+                if (z == wc) is not eqx or (wc == z) is not eqx or (z != wc) is eqx:
+                    acc.violation(['ctx', 'eq', zr, repr(wc), p], 'z == w for z=%s w=%r at prec %d gives %r/%r, exact %r' % (zr, wc, p, z == wc, wc == z, eqx), kind='ctx-pycomplex', op='eq')
+            # the rounded image of a Python complex is not equal to it unless the rounding was exact
+            for wc in (complex(99768.58400001978, 181.9823837680456), complex(0.1, 0.5)):
+                zz = mpc(wc)
+                acc.evals += 1; acc.nontrivial += 1
+                exact_same = (q(zz._mpc_[0]), q(zz._mpc_[1])) == (Fraction(wc.real), Fraction(wc.imag))
+                if (zz == wc) is not exact_same:
+                    acc.violation(['ctx', 'eq-rounded', repr(wc), p], 'mpc(w) == w at prec %d gives %r although the rounded value %s the exact one' % (p, zz == wc, 'equals' if exact_same else 'differs from'), kind='ctx-pycomplex', op='eq')
             w = complex(0.5, -0.75)
             ex = ex_op('mul', zr, (mk(0, 1, -1), mk(1, 3, -2)))
             g = z * w
